@@ -22,7 +22,7 @@
 EXTENDS TimeLabels, Sequences, FiniteSets
 
 VARIABLES sizes,      \* instruction sizes of the current script (facts from the binary)
-          src,        \* the script's source statements (for label times)
+          src,        \* the script's source statements annotated with their times (TimeLabels.Annotate)
           off, idx,   \* running offset, instructions placed
           phase,      \* "idle" (between scripts) | "code" (placing) | "ended" (End seen: locals may follow)
           cenv        \* values of the constants seen so far (name -> value)
@@ -32,16 +32,9 @@ DLInit ==
     /\ sizes = <<>> /\ src = <<>> /\ off = 0 /\ idx = 0 /\ phase = "idle"
     /\ cenv = [x \in {} |-> Undef]
 
-\* a new output file: forget the constants of the previous one
-NewFile ==
-    /\ phase \in {"idle", "ended"}
-    /\ cenv' = [x \in {} |-> Undef]
-    /\ phase' = "idle"
-    /\ UNCHANGED <<sizes, src, off, idx>>
-
 BeginScript(binarySizes, source) ==
     /\ phase \in {"idle", "ended"}
-    /\ sizes' = binarySizes /\ src' = source
+    /\ sizes' = binarySizes /\ src' = Annotate(source)
     /\ off' = 0 /\ idx' = 0 /\ phase' = "code"
     /\ UNCHANGED cenv
 
@@ -64,7 +57,7 @@ LabelTimesIn(ablk, name) ==
                        \cup (IF HasField(s, "else") THEN LabelTimesIn(s.else, name) ELSE {})
                   ELSE {})
           : i \in 1..Len(ablk) }
-LabelTime(name) == LabelTimesIn(Annotate(src), name)
+LabelTime(name) == LabelTimesIn(src, name)
 
 \* a label sits on an instruction boundary (the current one: labels are replayed in offset order between the
 \* instructions), after every instruction of the statements written before it and not after any instruction
